@@ -50,8 +50,14 @@ pub fn roundtrip_ok(ast: &Value, pat: &str) -> bool {
 
 pub fn rows_for(re: &fancy_regex::Regex, texts: &[String]) -> Vec<Vec<i64>> {
     let mut rows = Vec::new();
+    let mut errors = 0;
     for (k, t) in texts.iter().enumerate() {
         for &p in boundaries(t).iter() {
+            if errors >= 3 {
+                // the record is rejected already (an error row is never expected); do not burn
+                // a million backtracks on each of the remaining cells
+                return rows;
+            }
             let r = catch_unwind(AssertUnwindSafe(|| re.captures_from_pos(t, p)));
             match r {
                 Ok(Ok(None)) => {}
@@ -71,8 +77,14 @@ pub fn rows_for(re: &fancy_regex::Regex, texts: &[String]) -> Vec<Vec<i64>> {
                     }
                     rows.push(row);
                 }
-                Ok(Err(e)) => rows.push(vec![(k + 1) as i64, p as i64, run_status(&e)]),
-                Err(_) => rows.push(vec![(k + 1) as i64, p as i64, ST_PANIC]),
+                Ok(Err(e)) => {
+                    errors += 1;
+                    rows.push(vec![(k + 1) as i64, p as i64, run_status(&e)])
+                }
+                Err(_) => {
+                    errors += 1;
+                    rows.push(vec![(k + 1) as i64, p as i64, ST_PANIC])
+                }
             }
         }
     }
@@ -108,11 +120,24 @@ pub fn cmd_rows(o: &Opts) -> Result<(), String> {
                         let ast = &a["ast"];
                         let pat = to_pattern(ast);
                         let rt = roundtrip_ok(ast, &pat);
-                        let rec = match compile(&pat) {
-                            Ok(re) => json!({"id": a["id"], "pat": ascii(&pat), "ast": ast, "ng": a["ng"], "st": "ok", "ek": "", "rt": rt,
-                                             "rows": rows_for(&re, texts)}),
-                            Err(ek) => json!({"id": a["id"], "pat": ascii(&pat), "ast": ast, "ng": a["ng"], "st": "cerr", "ek": ek, "rt": rt, "rows": []}),
-                        };
+                        let mut rec = (*a).clone();
+                        {
+                            let m = rec.as_object_mut().expect("record object");
+                            m.insert("pat".into(), json!(ascii(&pat)));
+                            m.insert("rt".into(), json!(rt));
+                            match compile(&pat) {
+                                Ok(re) => {
+                                    m.insert("st".into(), json!("ok"));
+                                    m.insert("ek".into(), json!(""));
+                                    m.insert("rows".into(), json!(rows_for(&re, texts)));
+                                }
+                                Err(ek) => {
+                                    m.insert("st".into(), json!("cerr"));
+                                    m.insert("ek".into(), json!(ek));
+                                    m.insert("rows".into(), json!([]));
+                                }
+                            }
+                        }
                         out.push((*i, rec.to_string()));
                     }
                     out
